@@ -707,7 +707,12 @@ mod unstable {
                                     if let Formula::AtomicFormula(AtomicFormula::Comparison(c2)) =
                                         ct2
                                     {
-                                        if equality_comparison(c2) && i != j {
+                                        // Two copies of one conjunct are no pair of definitions: dropping "the second" drops both,
+                                        // which is only safe for the trivial identity Y = Y
+                                        if equality_comparison(c2)
+                                            && i != j
+                                            && (c1 != c2 || c1.term == c1.guards[0].term)
+                                        {
                                             if let Some((keep_var, drop_var, drop_term)) =
                                                 transitive_equality(
                                                     c1.clone(),
